@@ -310,8 +310,8 @@ def run_item(harness, item, *, tier="quick", max_paths=256, timeout_ms=20000, ce
                     res.discharged += 1
                     if v.syntactic:
                         res.syntactic += 1
-                    else:
-                        res.nontrivial += 1
+                if ob.impl is not None and not z3.is_rational_value(ob.impl) or (ob.impl is None and not (z3.is_true(ob.goal) or z3.is_false(ob.goal))):
+                    res.nontrivial += 1
                 if len(res.samples) < 6 and (not v.syntactic or len(res.samples) < 2):
                     res.samples.append({"item": str(item)[:200], "label": ob.label, "kind": ob.kind,
                                         "goal": ob.goal.sexpr()[:300], "verdict": v.status,
